@@ -17,6 +17,7 @@ from ..treeenv import get_tree_env, TreeRejected
 
 ID = "C14"
 LEVEL = "exploration"
+SELFTEST_N = 200
 BATCH = 4
 DOUBLE_EVERY = 37
 BUDGET = {"quick": 25.0, "thorough": 600.0}
